@@ -240,7 +240,7 @@ func ValueType(t *rapid.T, v primitive.ProtocolVersion, depth int, label string)
 		}
 		names := make([]string, n)
 		for i := range names {
-			names[i] = fmt.Sprintf("f%d_%s", i, rapid.StringMatching(`[a-z]{0,4}`).Draw(t, fmt.Sprintf("%s/n%d", label, i)))
+			names[i] = fmt.Sprintf("f%d_%s", i, rapid.StringMatching(`[a-zA-Z]{0,4}`).Draw(t, fmt.Sprintf("%s/n%d", label, i))) // CQL field names can be case-sensitive
 		}
 		u, _ := datatype.NewUserDefined("ks", "udt", names, fts)
 		return u
@@ -781,7 +781,20 @@ func toGoBase(av AV, dt datatype.DataType, r *Rep) reflect.Value {
 		case primitive.DataTypeCodeUuid, primitive.DataTypeCodeTimeuuid:
 			var u primitive.UUID
 			copy(u[:], av.Bytes)
-			out.SetString(u.String())
+			text := u.String()
+			switch u[15] % 3 { // hex digits in lower case, upper case, or mixed (RFC 4122: case-insensitive on input)
+			case 1:
+				text = strings.ToUpper(text)
+			case 2:
+				b := []byte(text)
+				for i := range b {
+					if i%2 == 1 && b[i] >= 'a' && b[i] <= 'f' {
+						b[i] -= 'a' - 'A'
+					}
+				}
+				text = string(b)
+			}
+			out.SetString(text)
 		case primitive.DataTypeCodeDate:
 			out.SetString(time.Unix(av.Int.Int64()*86400, 0).UTC().Format("2006-01-02"))
 		case primitive.DataTypeCodeTime:
